@@ -190,7 +190,8 @@ class Check:
             "rule": rule,
             "checker_cmd": self.cmds[0] if self.cmds else "",
             "trusted_base": self.trusted,
-            "exhaustive": self.exhaustive,
+            "exhaustive": False,     # the check as a whole samples executions; only its TLC model runs are exhaustive
+            "model_runs_enumerate_their_finite_state_space_completely": self.exhaustive,
             "model_runs": self.mc_runs,
             "known_findings_hit": {k: v[1] for k, v in self.known_hits.items()},
             "traces_cut_short_by_another_propertys_clause": self.truncated,
